@@ -61,7 +61,7 @@ theorem parent_good (c : Cfg) (hg : c.Good) (ps : Ps) (T : Table) (me : Caller)
   by_cases hroot : me.pid = m
   · subst hroot
     have hroot' : isRoot T me.pid = true := by simp [isRoot, hm]
-    simp [parentOf, hroot', hm]
+    cases hrg : c.rootGuarded <;> simp [parentOf, hroot', hm, hg.goneRaises, hraise]
   · have hnr : isRoot T me.pid = false := by
       simp [isRoot, hm]; exact fun h => hroot h.symm
     have hbeq : (me.pid == m) = false := by simpa using hroot
